@@ -24,6 +24,7 @@ import (
 	proto "github.com/kubewharf/kubebrain-client/api/v2rpc"
 
 	"github.com/kubewharf/kubebrain/pkg/metrics"
+	"github.com/kubewharf/kubebrain/pkg/verifhook"
 )
 
 const (
@@ -47,6 +48,7 @@ func (b *backend) Watch(ctx context.Context, prefix string, revision uint64) (<-
 		return nil, err
 	}
 
+	verifhook.Point("watch.afterSubscribe", b, nil)
 	result := make(chan []*proto.Event, resultChanLength)
 
 	// include the current revision in list
@@ -56,6 +58,7 @@ func (b *backend) Watch(ctx context.Context, prefix string, revision uint64) (<-
 	}
 
 	ret := b.watchCache.FindEvents(revision)
+	verifhook.Point("watch.afterCacheRead", b, nil)
 
 	if ret.empty {
 		if revision > b.tso.GetRevision() {
